@@ -347,11 +347,27 @@ def check_handoff(ctx, W, roots):
         for e in h.events:
             if e['kind'] == 'tbb-run' and not group_is_waited(tu, f, e):
                 bad = True
-                ctx.violation(R1, inst, 'the closure is handed to tbb::task_group::run on `%s` (%s) but nothing ever waits on that group: '
-                              'run() only spawns the task, it is executed when a worker happens to steal it or when somebody calls '
-                              'wait() on the group -- with a single thread / busy workers the task never runs. A fire-and-forget '
-                              'hand-off has to use task_arena::enqueue (or the group must be waited on, as AsyncTaskImpl does)'
-                              % (tu.show(e['obj']) if e.get('obj') is not None else '?', tu.loc(e['node'])), tu.loc(e['node']),
+                # waits on the same group object elsewhere (they do not give this hand-off a progress guarantee)
+                elsewhere = []
+                gp = X.access_path(tu, e['obj']) if e.get('obj') is not None else None
+                gc = core(tu, e['obj']) if e.get('obj') is not None else None
+                gfield = tu.sd(gc).get('d') if gc is not None and gc.get('kind') == 'MemberExpr' else None
+                for f2 in tu.functions.values():
+                    if f2['dep'] or f2['id'] == f['id'] or X.fn_decl(tu, f2) is None:
+                        continue
+                    for y in tu.walk(X.fn_decl(tu, f2)):
+                        if y.get('kind') == 'CXXMemberCallExpr' and X.RX_TBB_WAIT.match(tu.sd(y).get('q', '')):
+                            o2 = core(tu, tu.call_parts(y)[1]) if tu.call_parts(y)[1] is not None else None
+                            if o2 is not None and gfield is not None and o2.get('kind') == 'MemberExpr' and tu.sd(o2).get('d') == gfield:
+                                elsewhere.append('%s (%s)' % (short_name(f2['q']), tu.loc(y)))
+                where = ('the only wait on that group is in %s, which no caller of this function runs before it needs the result '
+                         '(a destructor / shutdown path)' % ', '.join(sorted(set(elsewhere)))) if elsewhere else 'nothing ever waits on that group'
+                ctx.violation(R1, inst, 'the closure is handed to tbb::task_group::run on `%s` (%s); %s. run() only spawns the task into the '
+                              'calling thread\'s pool: it is executed when a worker happens to steal it or when somebody waits on the group '
+                              '-- with a single thread (initTaskingSystem(1), one CPU, an arena of one) or busy workers the task does not '
+                              'run and a caller polling / blocking on a future waits forever. A fire-and-forget hand-off has to use '
+                              'task_arena::enqueue, the TBB primitive that guarantees execution without a waiter'
+                              % (tu.show(e['obj']) if e.get('obj') is not None else '?', tu.loc(e['node']), where), tu.loc(e['node']),
                               key='%s|%s|%s|run-without-wait' % (R1, file, name))
         if not h.counts and not h.undecided:
             ctx.undecided(R1, inst, 'no path reaches the end of the function', tu.fn_loc(f))
@@ -3631,33 +3647,35 @@ def check_workers_exist(ctx, W, info):
                 for pi, p in enumerate(f['params']):
                     if p['id'] == d:
                         setters[f['q']] = pi
-    # (3) lower bound the callers in TaskSys.cpp establish for that argument: `if (v < c) v = ...;` gives v >= c (if the fallback is)
+    # (3) lower bound the callers in TaskSys.cpp establish for that argument (interval evaluation of the calling function)
     low = None
     sites = []
+    ivs = Intervals(ts)
     for f in ts.functions.values():
         if f['dep'] or ts.cfg(f) is None:
             continue
-        for b, i, x in ts.cfg(f).stmts():
+        calls = [x for b, i, x in ts.cfg(f).stmts() if x.get('kind') == 'CXXMemberCallExpr' and ts.sd(x).get('q') in setters]
+        if not calls:
+            continue
+        seen_iv = {}
+
+        def probe(x, env, seen_iv=seen_iv):
             if x.get('kind') == 'CXXMemberCallExpr' and ts.sd(x).get('q') in setters:
                 args = ts.call_parts(x)[2]
-                a = args[setters[ts.sd(x).get('q')]] if setters[ts.sd(x).get('q')] < len(args) else None
-                cv = const_value(ts, a) if a is not None else None
-                lb = cv
-                v = decl_ref(ts, a) if a is not None else None
-                if lb is None and v:
-                    for blk in ts.cfg(f).blocks.values():
-                        if blk.cond:
-                            c = core(ts, ts.node(blk.cond))
-                            if c is not None and c.get('kind') == 'BinaryOperator' and c.get('opcode') in ('<', '<=') and \
-                                    decl_ref(ts, ts.kids(c)[0]) == v and const_value(ts, ts.kids(c)[1]) is not None:
-                                k0 = const_value(ts, ts.kids(c)[1])
-                                lb = k0 if c['opcode'] == '<' else k0 + 1
-                sites.append((f, x, lb))
+                pi = setters[ts.sd(x).get('q')]
+                if pi < len(args):
+                    seen_iv.setdefault(x['id'], []).append(ivs.ev(args[pi], env))
+        ivs.run(f, {}, probe=probe)
+        for x in calls:
+            vals = seen_iv.get(x['id'], [])
+            lb = min(v[0] for v in vals) if vals else None
+            sites.append((f, x, None if lb is None or lb <= -INF else lb))
     if not sites:
         ctx.undecided(R12, '[INTERNAL] worker thread creation' + W.tag, 'no caller that sets `%s` found in TaskSys.cpp' % cname, SCHEDULER)
         return 1
     bounds = [lb for f, x, lb in sites]
     low = None if any(lb is None for lb in bounds) else min(bounds)
+    W.thread_count = dict(field=cfield, name=cname, low=low, recid=info['recid'], setters=setters)
     minworkers = None if low is None else max(0, low - S)
     # (4) the publishing function: a test of the thread count that routes to inline execution without writing the pipe
     runners = reaches(tu, lambda q: q == X.ENKI_EXECUTE)
@@ -3720,6 +3738,347 @@ def check_workers_exist(ctx, W, info):
                           % (derived, short_name(f['q']), tu.show(w0), tu.loc(w0)), tu.loc(w0),
                           key='%s|%s|%s|published-with-no-worker-threads' % (R12, tu.fn_file(f), name))
     return n
+
+
+# ---- (v) completed tasks are deleted by exactly one thread: the sweep works on elements it took OUT of the shared list
+def check_reap_exclusive(ctx, W, tu, only_prefix=None, verdicts=None):
+    n = 0
+    for f in sorted(tu.functions.values(), key=lambda f: f['q']):
+        if f['dep'] or tu.cfg(f) is None or (only_prefix is not None and not f['q'].startswith(only_prefix)):
+            continue
+        decl = X.fn_decl(tu, f)
+        sweeps = []
+        for x in tu.walk(decl):
+            if x.get('kind') == 'CXXDeleteExpr' and tu.kids(x) and task_deletes_in(tu, x):
+                v = decl_ref(tu, tu.kids(x)[0])
+                rp = loop_range_path(tu, tu.node(v)) if v else None
+                if rp is not None and not is_shared_root(tu, rp[0]):
+                    sweeps.append((x, rp))
+        if not sweeps:
+            continue
+        n += 1
+        name = short_name(f['q'])
+        inst = '[%s] %s' % (tu.config, f['q'].replace('rkcommon::tasking::', '')) + W.tag
+        problems = []
+        for x, rp in sweeps:
+            # how did the local container get its elements?
+            for y in tu.walk(decl):
+                k = y.get('kind')
+                src = None
+                how = None
+                if k == 'VarDecl' and y.get('id') == rp[0] and tu.kids(y):
+                    c = tu.strip(tu.kids(y)[-1], casts=True)
+                    if c is not None and c.get('kind') in X.CONSTRUCTS and len(tu.kids(c)) == 1:
+                        a0 = tu.strip(tu.kids(c)[0], casts=True)
+                        if a0 is not None and not (a0.get('kind') == 'CallExpr' and tu.sd(a0).get('q') == 'std::move'):
+                            src, how = X.access_path(tu, a0), 'copy-constructed from'
+                elif k in ('CXXOperatorCallExpr', 'CXXMemberCallExpr') and X.call_parts(tu, y)[0].get('rec', '').startswith('std::'):
+                    sd, obj, args = X.call_parts(tu, y)
+                    nm = sd.get('q', '').split('::')[-1]
+                    if obj is None or X.access_path(tu, obj) != rp:
+                        continue
+                    if nm == 'operator=' and args:
+                        a0 = tu.strip(args[0], casts=True)
+                        if a0 is not None and not (a0.get('kind') == 'CallExpr' and tu.sd(a0).get('q') == 'std::move'):
+                            src, how = X.access_path(tu, a0), 'copy-assigned from'
+                    elif nm in ('insert', 'assign'):
+                        for a in args:
+                            for z in tu.walk(a):
+                                if z.get('kind') == 'CXXMemberCallExpr' and tu.sd(z).get('q', '').split('::')[-1] in ('begin', 'cbegin'):
+                                    o2 = tu.call_parts(z)[1]
+                                    src, how = (X.access_path(tu, o2) if o2 is not None else None), 'filled with a copy of the elements of'
+                if src is not None and is_shared_root(tu, src[0]):
+                    problems.append(('reaps-copy-of-shared-list', 'the completion-guarded delete at %s sweeps `%s`, which was %s the shared list '
+                                     '`%s` (%s) while that list keeps its elements: two threads calling schedule() at the same time hold the same '
+                                     'task pointers, both see GetIsComplete() and both delete the task (closure destroyed twice; the second '
+                                     'reader touches freed memory). The sweeping thread has to take the elements out of the shared list '
+                                     '(swap / move) so that every task is examined by exactly one thread'
+                                     % (tu.loc(x), tu.show(tu.node(rp[0])) if tu.node(rp[0]) is not None and tu.node(rp[0]).get('kind') != 'VarDecl'
+                                        else tu.node(rp[0]).get('name'), how, tu.show(tu.kids(y)[-1]) if k == 'VarDecl' else
+                                        (tu.show(X.call_parts(tu, y)[2][0]) if X.call_parts(tu, y)[2] else '?'), tu.loc(y)), tu.loc(x)))
+        if verdicts is not None:
+            verdicts.append((name, bool(problems)))
+            continue
+        if problems:
+            for kind, text, loc in sorted(set(problems)):
+                ctx.violation(R6, inst, text, loc, key='%s|%s|%s|%s' % (R6, tu.fn_file(f), name, kind))
+        else:
+            ctx.ok(R6, inst, 'the swept container holds elements taken out of the shared list (or local ones): each task is examined by '
+                   'one thread only', tu.fn_loc(f))
+    return n
+
+
+# ================================================================================================
+#  R-C02-13 no division by a partition count that is zero for an admissible number of threads
+# ================================================================================================
+R13 = 'R-C02-13'
+INF = 10 ** 12
+
+
+class Intervals:
+    """small interval evaluator over one TU: members of `this` (field ids) and locals / parameters (decl ids) map to [lo, hi];
+    branch conditions against constants refine them; calls of functions with a body are evaluated (bounded depth)."""
+    AT_LEAST_ONE = ('GetNumHardwareThreads', 'hardware_concurrency')
+
+    def __init__(self, tu):
+        self.tu = tu
+        self.last = {}          # key -> (fn, assignment node)
+
+    def key(self, e):
+        tu = self.tu
+        c = core(tu, e)
+        if c is None:
+            return None
+        if c.get('kind') == 'MemberExpr' and member_of_this(tu, c) is not None:
+            return member_of_this(tu, c)
+        if c.get('kind') == 'DeclRefExpr':
+            d = tu.node(c.get('referencedDecl', {}).get('id'))
+            if d is not None and d.get('kind') in ('VarDecl', 'ParmVarDecl') and const_value(tu, c) is None:
+                return d['id']
+        return None
+
+    def ev(self, e, env, depth=0):
+        tu = self.tu
+        c = core(tu, e)
+        if c is None:
+            return (-INF, INF)
+        k = c.get('kind')
+        if k == 'CXXBoolLiteralExpr':
+            return (1, 1) if c.get('value') else (0, 0)
+        cv = const_value(tu, c)
+        if cv is not None:
+            return (cv, cv)
+        kk = self.key(c)
+        if kk is not None:
+            t = tu.sd(c).get('ct', '')
+            return env.get(kk, (0, INF) if 'unsigned' in t or t == 'bool' else (-INF, INF))
+        if k == 'BinaryOperator' and c.get('opcode') in ('+', '-', '*'):
+            a, b2 = self.ev(tu.kids(c)[0], env, depth), self.ev(tu.kids(c)[1], env, depth)
+            uns = 'unsigned' in tu.sd(c).get('ct', '')
+            if c['opcode'] == '+':
+                r = (a[0] + b2[0], a[1] + b2[1])
+            elif c['opcode'] == '*':
+                ps = [a[0] * b2[0], a[0] * b2[1], a[1] * b2[0], a[1] * b2[1]]
+                r = (min(ps), max(ps))
+            else:
+                r = (a[0] - b2[1], a[1] - b2[0])
+            lo, hi = max(-INF, r[0]), min(INF, r[1])
+            if uns and lo < 0:
+                lo = 0      # wrap-around yields a large value, never a small one below 0
+            return (lo, hi)
+        if k == 'ConditionalOperator':
+            et, ef = self.narrow(tu.kids(c)[0], env, True), self.narrow(tu.kids(c)[0], env, False)
+            parts = ([self.ev(tu.kids(c)[1], et, depth)] if et is not None else []) + \
+                    ([self.ev(tu.kids(c)[2], ef, depth)] if ef is not None else [])
+            return (min(p0[0] for p0 in parts), max(p0[1] for p0 in parts)) if parts else (-INF, INF)
+        if k in ('CallExpr', 'CXXMemberCallExpr'):
+            sd, obj, args = tu.call_parts(c)
+            if sd.get('q', '').split('::')[-1] in self.AT_LEAST_ONE:
+                return (1, INF)
+            callee = tu.callee_fn(c)
+            if callee is not None and tu.cfg(callee) is not None and not callee['dep'] and depth < 3 and \
+                    (k == 'CallExpr' or (obj is not None and X.is_this_expr(tu, obj))):
+                penv = dict(env) if k == 'CXXMemberCallExpr' else {}
+                for pi, p in enumerate(callee['params']):
+                    if pi < len(args):
+                        penv[p['id']] = self.ev(args[pi], env, depth)
+                exits, rets = self.run(callee, penv, depth + 1)
+                if rets:
+                    return (min(r[0] for r in rets), max(r[1] for r in rets))
+        uns = 'unsigned' in tu.sd(c).get('ct', '')
+        return (0, INF) if uns else (-INF, INF)
+
+    def narrow(self, c, env, truth):
+        """env refined by `c` being true / false; None if impossible; unchanged if c is not understood"""
+        tu = self.tu
+        neg = False
+        c = deciding(tu, c) if c is not None else None
+        while c is not None and c.get('kind') == 'UnaryOperator' and c.get('opcode') == '!':
+            neg = not neg
+            c = core(tu, tu.kids(c)[0])
+        if c is None:
+            return env
+        if self.key(c) is not None:
+            m, kc, op = self.key(c), 0, ('==' if neg else '!=')
+        elif c.get('kind') != 'BinaryOperator' or c.get('opcode') not in ('==', '!=', '<', '<=', '>', '>=') or neg:
+            return env
+        else:
+            a, b2 = tu.kids(c)
+            op = c['opcode']
+            ka, kb = self.key(a), self.key(b2)
+            if ka is not None and const_value(tu, b2) is not None:
+                m, kc = ka, const_value(tu, b2)
+            elif kb is not None and const_value(tu, a) is not None:
+                m, kc = kb, const_value(tu, a)
+                op = {'<': '>', '>': '<', '<=': '>=', '>=': '<='}.get(op, op)
+            else:
+                return env
+        lo, hi = env.get(m, self.ev(c if self.key(c) is not None else (a if self.key(a) == m else b2), env))
+        if not truth:
+            op = {'==': '!=', '!=': '==', '<': '>=', '>=': '<', '>': '<=', '<=': '>'}[op]
+        if op == '==':
+            lo, hi = max(lo, kc), min(hi, kc)
+        elif op == '!=':
+            lo = lo + 1 if lo == kc else lo
+            hi = hi - 1 if hi == kc else hi
+        elif op == '<':
+            hi = min(hi, kc - 1)
+        elif op == '<=':
+            hi = min(hi, kc)
+        elif op == '>':
+            lo = max(lo, kc + 1)
+        elif op == '>=':
+            lo = max(lo, kc)
+        if lo > hi:
+            return None
+        env = dict(env)
+        env[m] = (lo, hi)
+        return env
+
+    def run(self, fn, env0, depth=0, probe=None):
+        """(exit environments, return value intervals); probe(node, env) is called at every statement"""
+        tu = self.tu
+        g = tu.cfg(fn)
+        rets = []
+
+        def transfer(blk, idx, e, st):
+            if blk.noret:
+                return []
+            if e[0] != 'S':
+                return [st]
+            x = tu.node(e[1])
+            if x is None:
+                return [st]
+            env = dict(st)
+            if probe is not None:
+                probe(x, env)
+            k = x.get('kind')
+            if k == 'CXXMemberCallExpr' and depth < 3:
+                sd, obj, args = tu.call_parts(x)
+                c = tu.callee_fn(x)
+                if obj is not None and X.is_this_expr(tu, obj) and c is not None and c['id'] != fn['id'] and tu.cfg(c) is not None \
+                        and c.get('recid') == fn.get('recid') and tu.par(x) is not None and tu.par(x).get('kind') in ('CompoundStmt', 'ExprWithCleanups'):
+                    penv = dict(env)
+                    for pi, p in enumerate(c['params']):
+                        if pi < len(args):
+                            penv[p['id']] = self.ev(args[pi], env, depth)
+                    exits, _rv = self.run(c, penv, depth + 1, probe)
+                    return sorted({tuple(sorted(ex.items())) for ex in exits}, key=repr)
+                return [st]
+            if k == 'DeclStmt':
+                for vd in tu.kids(x):
+                    if vd.get('kind') == 'VarDecl' and tu.kids(vd):
+                        env[vd['id']] = self.ev(tu.kids(vd)[-1], env, depth)
+                return [tuple(sorted(env.items()))]
+            if k == 'ReturnStmt' and tu.kids(x):
+                rets.append(self.ev(tu.kids(x)[0], env, depth))
+                return [st]
+            if k == 'BinaryOperator' and x.get('opcode') == '=':
+                m = self.key(tu.kids(x)[0])
+                if m is not None:
+                    env[m] = self.ev(tu.kids(x)[1], env, depth)
+                    self.last[m] = (fn, x)
+                    return [tuple(sorted(env.items()))]
+            return [st]
+
+        def refine(blk, si, st):
+            if not blk.cond or len(blk.succ) != 2:
+                return [st]
+            env = self.narrow(tu.node(blk.cond), dict(st), si == 0)
+            return [] if env is None else [tuple(sorted(env.items()))]
+        try:
+            exits, _r = X.exit_states(g, [tuple(sorted(env0.items()))], transfer, refine)
+        except RuntimeError:
+            return [dict(env0)], [(-INF, INF)]
+        return [dict(st) for st in exits], rets
+
+
+def check_partition_divisors(ctx, W, info):
+    tu = W.scheduler
+    tc = getattr(W, 'thread_count', None)
+    if not tc or tc.get('low') is None:
+        return 0
+    nfield, nname, low = tc['field'], tc['name'], tc['low']
+    fns = [f for f in tu.functions.values() if not f['dep'] and tu.cfg(f) is not None and f.get('recid') == info['recid']]
+    allfns = [f for f in tu.functions.values() if not f['dep'] and tu.cfg(f) is not None and tu.fn_file(f).endswith('TaskScheduler.cpp')]
+    iv = Intervals(tu)
+    # divisions by a member, directly or through a helper whose divisor parameter receives a member
+    divs = []       # (function, division node, member field id, member name, helper or None)
+    for f in allfns:
+        pids = {p['id']: pi for pi, p in enumerate(f['params'])}
+        for b, i, x in tu.cfg(f).stmts():
+            if x.get('kind') == 'BinaryOperator' and x.get('opcode') in ('/', '%'):
+                m = member_of_this(tu, tu.kids(x)[1])
+                d = decl_ref(tu, tu.kids(x)[1])
+                if m is not None and f.get('recid') == info['recid']:
+                    divs.append((f, x, m, core(tu, tu.kids(x)[1]).get('name'), None))
+                elif d in pids:
+                    for f2 in fns:
+                        for b2, i2, y in tu.cfg(f2).stmts():
+                            if y.get('kind') == 'CallExpr' and tu.callee_fn(y) is not None and tu.callee_fn(y)['id'] == f['id']:
+                                args = tu.call_parts(y)[2]
+                                a = args[pids[d]] if pids[d] < len(args) else None
+                                m2 = member_of_this(tu, a) if a is not None else None
+                                if m2 is not None:
+                                    divs.append((f2, y, m2, core(tu, a).get('name'), f))
+    if not divs:
+        return 0
+    fields = {m for f, x, m, nm, hp in divs}
+    # the state the initialisation leaves behind
+    results = {}
+    setters = tc.get('setters', {})
+    for f in sorted(fns, key=lambda f: f['q']):
+        pi = setters.get(f['q'])
+        if pi is None or pi >= len(f['params']) or not any(
+                x.get('kind') == 'BinaryOperator' and x.get('opcode') == '=' and member_of_this(tu, tu.kids(x)[0]) == nfield
+                for b, i, x in tu.cfg(f).stmts()):
+            continue
+        exits, _rv = iv.run(f, {f['params'][pi]['id']: (low, INF)})
+        for m in fields:
+            ivs = [ex.get(m) for ex in exits]
+            if ivs and all(v is not None for v in ivs) and m in iv.last:
+                results.setdefault(m, []).append((iv.last[m][0], (min(a for a, b2 in ivs), max(b2 for a, b2 in ivs)), iv.last[m][1]))
+    n = 0
+    seen = set()
+    for f, x, m, nm, hp in divs:
+        if (f['id'], m) in seen:
+            continue
+        seen.add((f['id'], m))
+        n += 1
+        inst = '[INTERNAL] %s: division by `%s`%s' % (f['q'], nm, (' in ' + short_name(hp['q'])) if hp else '') + W.tag
+        rs = results.get(m)
+        if not rs:
+            ctx.undecided(R13, inst, 'no assignment of `%s` found whose value could be bounded' % nm, tu.loc(x))
+            continue
+        zero = [(f2, v, an) for f2, v, an in rs if v[0] <= 0 <= v[1]]
+        unknown = [(f2, v, an) for f2, v, an in rs if v[0] <= -INF or (v[0] <= 0 and v[1] >= INF and not _arith_known(tu, an))]
+        if zero and not unknown:
+            f2, v, an = zero[0]
+            ctx.violation(R13, inst, '`%s` can be 0 when the scheduler is initialised with %s == %s (the callers allow %s >= %s): %s leaves it in '
+                          'the range [%s, %s] (last assignment at %s), and %s divides by it at %s -- integer division by zero (SIGFPE) on the '
+                          'first schedule()/AsyncTask/parallel_for of a one-thread scheduler, before the function handed over runs'
+                          % (nm, nname, low, nname, low, short_name(f2['q']), v[0], 'inf' if v[1] >= INF else v[1], tu.loc(an),
+                             short_name(f['q']), tu.loc(x)), tu.loc(x),
+                          key='%s|%s|%s|division-by-%s-zero' % (R13, tu.fn_file(f), r7_name(f), nm))
+        elif zero:
+            ctx.undecided(R13, inst, 'the value assigned to `%s` at %s is not bounded by the evaluator' % (nm, tu.loc(unknown[0][2])), tu.loc(x))
+        else:
+            ctx.ok(R13, inst, 'for every admissible %s (>= %s) the divisor is at least %s' % (nname, low, min(v[0] for f2, v, an in rs)), tu.loc(x))
+    return n
+
+
+def _arith_known(tu, assign):
+    """is the assigned expression made only of constants, members, locals, + - * ?: and calls with a body (so that a lower bound
+    of 0 is a derived fact, not ignorance)?"""
+    for y in tu.walk(tu.kids(assign)[1]):
+        k = y.get('kind')
+        if k in ('CallExpr', 'CXXMemberCallExpr'):
+            c = tu.callee_fn(y)
+            if c is None or tu.cfg(c) is None:
+                return False
+        elif k in ('ArraySubscriptExpr', 'CXXNewExpr', 'UnaryOperator') and not (k == 'UnaryOperator' and y.get('opcode') in ('-', '+', '!')):
+            return False
+    return True
 
 
 def check_wait_drains(ctx, W):
@@ -3803,7 +4162,8 @@ EXPECT_DELETES = {'rkverif::c02w::reapGuarded': False, 'rkverif::c02w::reapAfter
                   'rkverif::c02w::reapUnguarded': True, 'rkverif::c02w::neverScheduled': False,
                   'rkverif::c02w::sweepThenSchedule': False,   # guarded, hence fine for (iii); (iv) flags its order
                   'rkverif::c02w::reapUnderLock': False, 'rkverif::c02w::reapLambdaUnderLock::<closure>': False,
-                  'rkverif::c02w::reapOutsideLock': False, 'rkverif::c02w::reapAfterUnlock': False}   # guarded; R-C02-10 judges the lock
+                  'rkverif::c02w::reapOutsideLock': False, 'rkverif::c02w::reapAfterUnlock': False,
+                  'rkverif::c02w::reapSnapshot': False}   # guarded; R-C02-10 judges the lock, (v) the ownership
 EXPECT_ORDER = {('rkverif::c02w::StartsTooEarly', 'result'): True, ('rkverif::c02w::StartsTooEarly', 'done'): False,
                 ('rkverif::c02w::StartsLast', 'result'): False, ('rkverif::c02w::StartsLast', 'done'): False,
                 ('rkverif::c02w::NeverWaits', 'result'): False, ('rkverif::c02w::NeverWaits', 'done'): False,
@@ -3814,10 +4174,13 @@ EXPECT_PUBLISH = {'rkverif::c02w::publishThenSchedule': True, 'rkverif::c02w::sc
 EXPECT_RESULT_USE = {'rkverif::c02w::MovesOut': 'result-moved-out', 'rkverif::c02w::Copies': None}
 EXPECT_RUN = {'rkverif::c02w::detachedRun': False, 'rkverif::c02w::runAndWait': True, 'rkverif::c02w::runMaybeWait': False}
 EXPECT_LOCKED_DELETE = {'rkverif::c02w::reapUnderLock': True, 'rkverif::c02w::reapLambdaUnderLock': True,
-                        'rkverif::c02w::reapOutsideLock': False, 'rkverif::c02w::reapAfterUnlock': False}
+                        'rkverif::c02w::reapOutsideLock': False, 'rkverif::c02w::reapAfterUnlock': False,
+                        'rkverif::c02w::reapSnapshot': False}
 EXPECT_PROGRESS = {'rkverif::c02w::Handshake::publishThenWake#progress': False, 'rkverif::c02w::Handshake::publishFenceThenWake#progress': False,
                    'rkverif::c02w::Handshake::publishNoWake#progress': False, 'rkverif::c02w::Handshake::wakeThenPublish#progress': None,
                    'rkverif::c02w::Handshake::publishSpinUntilRoom#progress': True, 'rkverif::c02w::Handshake::publishOrRunInline#progress': False}
+EXPECT_REAP = {'rkverif::c02w::reapOutsideLock': False, 'rkverif::c02w::reapAfterUnlock': False, 'rkverif::c02w::reapSnapshot': True,
+               'rkverif::c02w::sweepThenSchedule': False}
 EXPECT_REINIT = {'rkverif::c02w::reinitKeepsScheduler': True, 'rkverif::c02w::reinitFresh': False, 'rkverif::c02w::reinitDrained': False}
 EXPECT_HANDSHAKE = {'rkverif::c02w::Handshake::sleepRegisteredFirst': False, 'rkverif::c02w::Handshake::sleepCheckedFirst': True,
                     'rkverif::c02w::Handshake::sleepUnregistered': True, 'rkverif::c02w::Handshake::publishThenWake': False,
@@ -3858,6 +4221,11 @@ def check_witness(ctx, W, active_unused=None):
     got = {a: c for a, b, c in v}
     if got != EXPECT_DTOR:
         bad.append('wait-before-release detector: expected %s, got %s' % (EXPECT_DTOR, got))
+    v = []
+    check_reap_exclusive(ctx, W, tu, only_prefix='rkverif::c02w::', verdicts=v)
+    got = dict(v)
+    if got != EXPECT_REAP:
+        bad.append('exclusive-reap detector: expected %s, got %s' % (EXPECT_REAP, got))
     v = []
     check_publication_order(ctx, W, tu, verdicts=v)
     got = {k: c for k, c in v if k.startswith('rkverif::c02w::')}
@@ -3949,11 +4317,12 @@ def run_world(ctx, W):
     for tu in (tui, W.tasksys, W.scheduler):
         check_task_deletes(ctx, W, tu, handled if tu is tui else set())
         check_publication_order(ctx, W, tu)
+        check_reap_exclusive(ctx, W, tu)
     n7s, n7p = check_wake_protocol(ctx, W, W.scheduler)
     n10 = check_delete_under_lock(ctx, W, W.tasksys)
     n11 = check_full_pipe_progress(ctx, W, W.scheduler)
     info = classify_scheduler(ctx, W)
-    n8 = n9 = n12 = 0
+    n8 = n9 = n12 = n13 = 0
     if info is None or not info['drains']:
         ctx.broken('%s: cannot identify the pipe member / a function that drains all queued tasks in TaskScheduler.cpp%s' % (R8, W.tag))
     else:
@@ -3961,8 +4330,9 @@ def run_world(ctx, W):
         n8 = check_scheduler_teardown(ctx, W, info) + check_drain_before_discard(ctx, W, [W.tasksys], info)
         n9 = check_thread_index(ctx, W, info)
         n12 = check_workers_exist(ctx, W, info)
+        n13 = check_partition_divisors(ctx, W, info)
     check_witness(ctx, W)
-    return dict(n12=n12, n2o=n2o, n11=n11, n10=n10, n9=n9, n8=n8, n7s=n7s, n7p=n7p, n1=n1 + n_sub, names=names, n2=n2, n3=n3, n4=n4, n5=n5, n6=n6, nsites=nsites)
+    return dict(n13=n13, n12=n12, n2o=n2o, n11=n11, n10=n10, n9=n9, n8=n8, n7s=n7s, n7p=n7p, n1=n1 + n_sub, names=names, n2=n2, n3=n3, n4=n4, n5=n5, n6=n6, nsites=nsites)
 
 
 def floors(ctx, r, tag=''):
@@ -3980,6 +4350,7 @@ def floors(ctx, r, tag=''):
     ctx.floor(R5, r['n5'], 8, 'async<IntJob>, async<StringJob&> x 4 backends' + tag)
     ctx.floor(R6, r['n6'], 5, 'ExecuteRange overrides: schedule_internal x 3, AsyncTaskImpl, parallel_for_internal' + tag)
     ctx.floor(R6, r['nsites'], 2, 'ExecuteRange call sites in TaskScheduler.cpp: 3' + tag)
+    ctx.floor(R13, r['n13'], 1, 'divisions by partition counts on the path of AddTaskSetToPipe (m_NumPartitions, m_NumInitialPartitions): 2 functions x members on the pinned tree' + tag)
     ctx.floor(R12, r['n12'], 1, 'functions of the scheduler that write a task to a pipe: SplitAndAddTask' + tag)
     ctx.floor(R11, r['n11'], 1, 'functions of the scheduler that write a task to a pipe: SplitAndAddTask' + tag)
     ctx.floor(R10, r['n10'], 1, 'functions of TaskSys.cpp that take the detached-task mutex: scheduleDetachedTaskInternal' + tag)
@@ -4005,6 +4376,8 @@ def run(ctx):
     ctx.assume('tbb::task_arena::enqueue, tbb::task_group::run, std::thread and the enkiTS pipe invoke a submitted callable exactly once '
                '(backend contract; the enkiTS partition/pipe bookkeeping is the subject of C01/C12)')
     ctx.assume('std::packaged_task / std::future deliver the value of the invoked callable (standard library contract)')
+    ctx.describe(R13, 'every member the scheduler divides by is non-zero for every number of threads its callers can pass (interval '
+                      'evaluation of its assignments under the branch conditions)')
     ctx.describe(R12, 'a task is left in a pipe only if a worker thread exists that can take it out: the number of workers derived from the '
                       'thread creation loop and the callers\' bounds is at least one, or the publisher runs the task inline when it may be zero')
     ctx.describe(R11, 'scheduling makes progress on the calling thread alone: a failed (full) pipe write is not retried before the thread '
